@@ -275,7 +275,7 @@ func runC16(r *rt.Run) {
 	sc := c16Scenarios(r.Thorough())
 	r.Bounds["scenarios"] = len(sc)
 	r.Bounds["pool_objects"] = len(c16Pool())
-	runWorkers(r, bin, "c16worker", 300*time.Second)
+	runWorkers(r, bin, "c16worker", 600*time.Second)
 	// free-running race pass
 	raceBin := filepath.Join(scratch, "verif-race")
 	cmd := exec.Command("go", rt.GoBuild("-race", "-o", raceBin, "./cmd/verif")...)
